@@ -22,16 +22,34 @@ C14Run == ev.ev = "run" =>
     /\ (ev.stable \/ Rep("C14", "two runs on the same input print different output", ""))
 
 \* C15: the map of a record holds the record's own values; only profile / name / target may be
-\* rewritten (generalised); nothing of another record appears
+\* rewritten, and only by a generalisation that still covers the original (fact established by the
+\* AARE matcher over the shipped tunables); nothing the record does not have appears
+PutKeys == {ev.put[i][1] : i \in DOMAIN ev.put}
+GotKeys == {ev.got[i][1] : i \in DOMAIN ev.got}
+PutVal(k) == ev.put[CHOOSE i \in DOMAIN ev.put : ev.put[i][1] = k][2]
+GotVal(k) == ev.got[CHOOSE i \in DOMAIN ev.got : ev.got[i][1] = k][2]
+Generalisable == {"profile", "name", "target"}
+CoveredKeys == {ev.covered[i] : i \in DOMAIN ev.covered}
+Lost  == PutKeys \ GotKeys
+Wrong == {k \in PutKeys \cap GotKeys : GotVal(k) # PutVal(k) /\ ~(k \in Generalisable /\ k \in CoveredKeys)}
+Extra == GotKeys \ PutKeys
 C15Fields == ev.ev = "fields" =>
-    /\ (ev.lost = <<>>  \/ Rep("C15", "a field of the record is missing from the event", ev.lost))
-    /\ (ev.wrong = <<>> \/ Rep("C15", "a field value is not the record's own, faithfully decoded value", ev.wrong))
-    /\ (ev.extra = <<>> \/ Rep("C15", "the event carries a field the record does not have (bleeding between fields or records)", ev.extra))
+    /\ (Lost = {}  \/ Rep("C15", "a field of the record is missing from the event", Lost))
+    /\ (Wrong = {} \/ Rep("C15", "a field value is not the record's own, faithfully decoded value", [k \in Wrong |-> [want |-> PutVal(k), got |-> GotVal(k)]]))
+    /\ (Extra = {} \/ Rep("C15", "the event carries a field the record does not have (bleeding between fields or records)", Extra))
 
-\* C16: under the record's profile there is a rule of the right kind and qualifier that covers the access
+\* C16: under the record's profile there is a rule of the right kind and qualifier that covers the access.
+\* requested mask -> access the rule must grant (a, c, d are write accesses; x needs an exec mode)
+Need(m) == CASE m = "a" -> "w" [] m = "c" -> "w" [] m = "d" -> "w" [] OTHER -> m
+MaskOK(mask, acc) == \A i \in DOMAIN mask : IF mask[i] = "x" THEN \E j \in DOMAIN acc : acc[j] \in {"x", "ix", "px", "Px", "ux", "Ux", "cx", "Cx", "pix", "Pix", "cix", "Cix", "pux", "PUx", "cux", "CUx"}
+                                              ELSE \E j \in DOMAIN acc : acc[j] = Need(mask[i])
+FileRuleOK(w, r) == r.kind = w.kind /\ r.qual = w.qual /\ r.covers /\ (w.kind = "link" \/ MaskOK(w.mask, r.access)) /\ (r.owner => w.ownereligible)
+OtherRuleOK(w, r) == r.kind = w.kind /\ r.qual = w.qual /\ \A i \in DOMAIN w.tokens : \E j \in DOMAIN r.tokens : r.tokens[j] = w.tokens[i]
 C16Cover == ev.ev = "cover" =>
-    /\ (ev.haskind   \/ Rep("C16", "no rule of the right kind and qualifier is emitted under the record's profile", ev.want))
-    /\ (~ev.haskind \/ ev.covered \/ Rep("C16", "no emitted rule covers the recorded access", [want |-> ev.want, rules |-> ev.rules]))
-    /\ (~ev.haskind \/ ev.ownerok \/ Rep("C16", "owner is set although fsuid differs from ouid (or the reverse)", ev.want))
+    /\ ((\E i \in DOMAIN ev.rules : ev.rules[i].kind = ev.want.kind /\ ev.rules[i].qual = ev.want.qual)
+          \/ Rep("C16", "no rule of the right kind and qualifier is emitted under the record's profile", ev.want))
+    /\ ((\E i \in DOMAIN ev.rules : IF ev.want.kind \in {"file", "link"} THEN FileRuleOK(ev.want, ev.rules[i]) ELSE OtherRuleOK(ev.want, ev.rules[i]))
+          \/ ~(\E i \in DOMAIN ev.rules : ev.rules[i].kind = ev.want.kind /\ ev.rules[i].qual = ev.want.qual)
+          \/ Rep("C16", "no emitted rule covers the recorded access", [want |-> ev.want, rules |-> ev.rules]))
 Accepted == TLCGet("stats").diameter = Len(Trace) + 1
 =============================================================================
